@@ -14,11 +14,13 @@ enum OpCode : uint16_t {
   OP_INVERSE = 0, OP_LOG, OP_COMPOSE, OP_BETWEEN, OP_RPLUS, OP_LPLUS, OP_PLUS,
   OP_RMINUS, OP_LMINUS, OP_MINUS, OP_ACT, OP_ADJ, OP_MUL, OP_ADD, OP_SUB,
   OP_ISAPPROX, OP_EQ, OP_TRANSFORM, OP_ROTATION, OP_CASTRT, OP_COEFFS, OP_LIFT, OP_DATAPTR, OP_ACCESSORS, OP_CONSTRUCT, OP_STREAM,
+  OP_HOLD,      // results bound to const references stay valid and unchanged while other objects are used
   // tangent -> ...
   OP_EXP = 30, OP_HAT, OP_RJAC, OP_LJAC, OP_RJACINV, OP_LJACINV, OP_SMALLADJ,
   OP_INNER, OP_WNORM, OP_SQWNORM, OP_BRACKET, OP_TPLUS, OP_TMINUS,
   OP_T_RPLUS_X, OP_T_LPLUS_X, OP_T_PLUS_X, OP_T_ADD_X, OP_T_ISAPPROX, OP_T_NEG, OP_T_SCALE,
   OP_T_ADD_T, OP_T_SUB_T, OP_T_GENERATOR_M, OP_T_INNERW_M, OP_RETRACT, OP_T_CASTRT, OP_JT_MUL, OP_T_ACCESSORS, OP_T_STREAM,
+  OP_T_HOLD,
   // static helpers
   OP_IDENTITY = 60, OP_ZERO, OP_GENERATOR, OP_INNERWEIGHTS, OP_VEE, OP_BRACKET_S, OP_RANDOM, OP_T_RANDOM,
   // algorithms
@@ -30,6 +32,7 @@ enum OpCode : uint16_t {
   // tangent mutators (dst = a)
   OP_TM_ASSIGN = 110, OP_TM_SETZERO, OP_TM_SETRANDOM, OP_TM_PLUSEQ, OP_TM_MINUSEQ, OP_TM_MULEQ,
   OP_TM_DIVEQ, OP_TM_STREAM, OP_TM_LOG_INTO, OP_TM_ASSIGN_EIGEN, OP_TM_COEFFWRITE, OP_TM_SETVEE, OP_TM_BLOCKSET,
+  OP_TM_MOVE_ASSIGN,
   OP__END = 130
 };
 
@@ -79,7 +82,9 @@ const int MAXV = 420;  // >= 20*20
 struct Out {
   int status;   // 0 ok, 1 manif::invalid_argument, 2 manif::runtime_error, 3 std::logic_error,
                 // 4 other std::exception, 5 unknown exception, 9 op not applicable to this group
-  int flags;    // bit0: memory outside a bound output block changed
+  int flags;    // bit0: memory outside a bound output block changed; bit1: element-wise read access disagrees with coeffs()
+                // bit2: an assignment did not leave the source's coefficients in the destination's own storage
+                // bit3: a result bound to a const reference changed while other objects were used
   int nv, n1, n2;
   double v[MAXV], j1[MAXV], j2[MAXV];
   uint64_t digest() const;
